@@ -21,9 +21,10 @@ Inductive case :=
     (* on-chain transactions (block index, signers, hashes named in Conflicts) in chain order; then the transaction
        with hash h and these signers is submitted at height c_height; its conflict-on-chain fact comes from the
        record table model, everything else about it is in order *)
-| CPack (maxtx : nat) (maxsize maxsysfee hdr real_hdr : N) (txs : list (N * N)) (k : nat).
-    (* (size, system fee) in pool order; ApplyPolicyToTxSet kept the first k; hdr = expected size without
-       transactions used by the code, real_hdr = encoded block size minus the transactions *)
+| CPack (maxtx : nat) (maxsize maxsysfee hdr real_hdr : N) (pool : list tx) (bal : list (payer * N)) (k : nat).
+    (* GetVerifiedTransactions (ids = positions, signers = account numbers, Conflicts = position of the named
+       pooled transaction or a foreign id) with the senders' GAS balances on chain; ApplyPolicyToTxSet kept the
+       first k; hdr = expected size without transactions, real_hdr = encoded block size minus the transactions *)
 
 Definition nlist_eqb := list_eqb N.eqb.
 
@@ -56,9 +57,14 @@ Definition admissibleb (c : chainfacts) (t : txfacts) : bool :=
   && (f_size t * c_fee_per_byte c + f_attr_fee t <=? f_netfee t)
   && verify_loop (c_max_verif_gas c) (f_netfee t - (f_size t * c_fee_per_byte c + f_attr_fee t)) (f_witnesses t).
 
-Definition mk_pack_tx (i : nat) (p : N * N) : tx := mkTx (N.of_nat i) [2] (snd p) 0 (fst p) false [] None.
-Fixpoint mk_pack_txs (i : nat) (l : list (N * N)) : list tx :=
-  match l with [] => [] | p :: r => mk_pack_tx i p :: mk_pack_txs (S i) r end.
+(* the premise of C07_pack_inherits_pool_invariant, evaluated on the real pool: C08's invariant as far as a
+   packed prefix needs it (no duplicates, no two in conflict, every payer can pay for all its pooled transactions) *)
+Fixpoint nodupN (l : list N) : bool :=
+  match l with [] => true | x :: r => negb (existsb (N.eqb x) r) && nodupN r end.
+Definition pool_premise (l : list tx) (bal : payer -> N) : bool :=
+  nodupN (map tid l)
+  && forallb (fun a => forallb (fun b => negb (existsb (N.eqb (tid a)) (confl b))) l) l
+  && forallb (fun e => sum_fees (payer_of e) l <=? bal (payer_of e)) l.
 
 Definition with_conflict (t : txfacts) (b : bool) : txfacts :=
   mkFacts (f_script_ok t) (f_vub t) (f_size t) (f_sysfee t) (f_netfee t) (f_attr_fee t) (f_policy_ok t)
@@ -96,12 +102,12 @@ Definition check_case (c : case) : N :=
       if Bool.eqb m (conflict_spec es h signers (c_height ch) mtb) then
         check_admit base ch (with_conflict t m) ws [] x bal impl
       else 3
-  | CPack maxtx maxsize maxsysfee hdr real_hdr txs k =>
-      let l := mk_pack_txs 0 txs in
+  | CPack maxtx maxsize maxsysfee hdr real_hdr l bal k =>
       let b := apply_policy maxtx maxsize maxsysfee (fun _ => hdr) l in
       let sel := firstn k l in
       let spec := ((maxtx =? 0)%nat || (k <=? maxtx)%nat)
                   && ((k =? 0)%nat || (real_hdr + total_size sel <=? maxsize))
-                  && (total_sysfee sel <=? maxsysfee) && (k <=? length txs)%nat in
+                  && (total_sysfee sel <=? maxsysfee) && (k <=? length l)%nat
+                  && pool_premise l (bal_of bal) && pool_premise sel (bal_of bal) in
       code_of ((length b =? k)%nat) spec
   end.
